@@ -69,6 +69,8 @@ def make_param(name, cls=None, rng=None):
     r.add_int_param('p', 0, 40)
   elif name == 'S_three':
     r.add_discrete_param('p', [0.5, 1, 10])
+  elif name == 'S_decimal':
+    r.add_discrete_param('p', [0.1, 0.2, 0.3, 0.7])
   elif name == 'S_twelve':
     r.add_discrete_param('p', [float(v) * 1.5 for v in range(12)])
   elif name == 'C_three':
